@@ -41,7 +41,8 @@ type EvictPlan struct {
 	NewIntMs   int64        `json:"new_interval,omitempty"` // interval changed at run time before the trigger
 	Trigger    string       `json:"trigger"`                // "store" | "tick"
 	TrigSize   int          `json:"trig_size"`
-	Interferer int          `json:"interferer"` // 0 none; else size of a slow concurrent store on another key
+	Interferer int          `json:"interferer"`     // 0 none; else size of a slow concurrent store on another key
+	Many       bool         `json:"many,omitempty"` // many small entries, limit = population, two stores starting together: overlapping eviction passes
 	Pol        zzsim.Policy `json:"pol"`
 }
 
@@ -49,6 +50,9 @@ const evKiB = 1024
 const evMiB = 1024 * 1024
 
 func genEvictPlan(r *rand.Rand) *EvictPlan {
+	if r.IntN(4) == 0 {
+		return genEvictManyPlan(r)
+	}
 	p := &EvictPlan{}
 	p.Backend = []string{"memory", "file"}[r.IntN(2)]
 	p.Shards = []int{1, 2, 3, 16, 64}[r.IntN(5)]
@@ -103,6 +107,34 @@ func genEvictPlan(r *rand.Rand) *EvictPlan {
 	return p
 }
 
+// genEvictManyPlan: the store is exactly at its limit with many small entries, and two stores on
+// different keys begin in the same scheduling step, so their eviction passes overlap in whatever
+// way the scheduler picks. One pass's worth (20 % of the limit) is much more than a few entries.
+func genEvictManyPlan(r *rand.Rand) *EvictPlan {
+	p := &EvictPlan{Many: true}
+	p.Backend = []string{"memory", "file"}[r.IntN(2)]
+	p.Shards = []int{2, 16, 64}[r.IntN(3)]
+	p.KeySalt = r.IntN(1000)
+	p.Pol = genPolicy(r, false)
+	p.Pol.MaxSteps = 30000
+	n := 30 + r.IntN(21)
+	total := int64(0)
+	for i := 0; i < n; i++ {
+		e := EvEntry{Size: (100 + 10*r.IntN(11)) * evKiB, TTLMs: 3600 * 1000 * 100}
+		if r.IntN(3) == 0 {
+			e.AccessMs = []int64{int64(1 + r.IntN(3000))}
+		}
+		p.Entries = append(p.Entries, e)
+		total += int64(e.Size)
+	}
+	p.Limit = total - int64(r.IntN(2))*int64(r.IntN(100*evKiB))
+	p.IntervalMs = 60000
+	p.Trigger = "store"
+	p.TrigSize = 1000
+	p.Interferer = []int{1000, 50 * evKiB}[r.IntN(2)]
+	return p
+}
+
 type evSnap map[string]cache.VerifEntryInfo
 
 func runEvictPlan(t *testing.T, planAny any, ctl Ctl) *Result {
@@ -150,6 +182,20 @@ func runEvictPlan(t *testing.T, planAny any, ctl Ctl) *Result {
 		s.Unexempt()
 		w := &cacheWorld{p: &CachePlan{Backend: p.Backend}, sim: s, c: c, cfg: cfg, dir: dir, res: res}
 		var trigReady atomic.Bool
+		interfererStore := func() {
+			resMu.Lock()
+			seq++
+			intCall = seq
+			resMu.Unlock()
+			src := &srcReader{w: w, data: body(98, 1, p.Interferer), chunk: max(p.Interferer/6, 1)}
+			if ent, err := c.Cache(intKey, src, time.Now().Add(100*time.Hour), CMeta{98, 1}); err == nil && ent != nil && ent.Data != nil {
+				ent.Data.Close()
+			}
+			resMu.Lock()
+			seq++
+			intRet = seq
+			resMu.Unlock()
+		}
 		s.Spawn("actor:driver", func() {
 			// population: stores 2 ms apart, all inside the first 100 ms (before any tick)
 			for i, e := range p.Entries {
@@ -174,7 +220,9 @@ func runEvictPlan(t *testing.T, planAny any, ctl Ctl) *Result {
 					accs = append(accs, acc{a, i})
 				}
 			}
-			sort.Slice(accs, func(i, j int) bool { return accs[i].at < accs[j].at || (accs[i].at == accs[j].at && accs[i].k < accs[j].k) })
+			sort.Slice(accs, func(i, j int) bool {
+				return accs[i].at < accs[j].at || (accs[i].at == accs[j].at && accs[i].k < accs[j].k)
+			})
 			for _, a := range accs {
 				s.WaitUntil("harness:ev-access", base.Add(time.Duration(a.at)*time.Millisecond))
 				if ent, err := c.Get(keys[a.k]); err == nil {
@@ -199,6 +247,10 @@ func runEvictPlan(t *testing.T, planAny any, ctl Ctl) *Result {
 			seq++
 			trigCall = seq
 			resMu.Unlock()
+			if p.Many && p.Interferer > 0 {
+				// begins in the same step as the trigger: from here on the scheduler interleaves the two stores
+				s.Spawn("actor:interferer", interfererStore)
+			}
 			switch p.Trigger {
 			case "store":
 				src := &srcReader{w: w, data: body(99, 1, p.TrigSize)}
@@ -220,7 +272,7 @@ func runEvictPlan(t *testing.T, planAny any, ctl Ctl) *Result {
 			after = evSnap(cache.VerifPeek(c))
 			evictionsAfter = metrics.Global.Cache.CacheEvictions.Get()
 		})
-		if p.Interferer > 0 {
+		if p.Interferer > 0 && !p.Many {
 			s.Spawn("actor:interferer", func() {
 				for !trigReady.Load() {
 					s.WaitUntil("harness:ev-int-wait", time.Now().Add(100*time.Millisecond))
@@ -228,18 +280,7 @@ func runEvictPlan(t *testing.T, planAny any, ctl Ctl) *Result {
 						return
 					}
 				}
-				resMu.Lock()
-				seq++
-				intCall = seq
-				resMu.Unlock()
-				src := &srcReader{w: w, data: body(98, 1, p.Interferer), chunk: p.Interferer / 6}
-				if ent, err := c.Cache(intKey, src, time.Now().Add(100*time.Hour), CMeta{98, 1}); err == nil && ent != nil && ent.Data != nil {
-					ent.Data.Close()
-				}
-				resMu.Lock()
-				seq++
-				intRet = seq
-				resMu.Unlock()
+				interfererStore()
 			})
 		}
 		end := s.Run(func() bool { return s.TaskDone("actor:driver") && s.TaskDone("actor:interferer") })
@@ -378,7 +419,31 @@ func judgeEvict(p *EvictPlan, res *Result, keys []cache.CacheKey, before, after 
 		// the expired entries are cleaned) and its size may or may not be counted yet. Only the
 		// order and expiry rules are judged in these runs.
 		res.Probes["concurrent_store_during_trigger"]++
-		judgeEvictOrder(p, res, desc, before, survivors, lruEvicted, exempt, name)
+		// The order is not judged here: a pass skips a candidate whose shard lock is taken at that
+		// moment, and the other store's pass takes the lock of whatever shard it is removing from,
+		// so any entry can legitimately be passed over ("in use") while two passes overlap.
+		// C13.d with concurrent passes: a pass removes an entry only after seeing the store above the
+		// target, and the store is never larger than the old entries still present plus the two new
+		// ones. With up to three passes (two stores, one tick) each having one removal in flight, the
+		// old entries cannot legitimately fall below target - new entries - 3 x the largest removed.
+		anyExpiry := false
+		for k := range before {
+			if maybeExpired(k) {
+				anyExpiry = true
+			}
+		}
+		if p.Trigger == "store" && !anyExpiry && len(lruEvicted) > 0 {
+			maxEv := int64(0)
+			for _, k := range lruEvicted {
+				maxEv = max(maxEv, before[k].Size)
+			}
+			slack := 3*maxEv + int64(p.TrigSize) + int64(p.Interferer)
+			if totalAfterOld+slack <= target {
+				res.violate("C13.d", "evicted-more-than-needed concurrent-stores", "%s: two stores ran concurrently; %d bytes of the %d pre-existing remain, target %d, largest removed entry %d, new entries %d+%d bytes: more was removed than overlapping passes that each stop at the target can remove (%d entries evicted)", desc, totalAfterOld, totalBefore, target, maxEv, p.TrigSize, p.Interferer, len(lruEvicted))
+			} else if totalBefore >= limit {
+				res.Probes["concurrent_passes_judged"]++
+			}
+		}
 		return
 	}
 	if !over && sizeUpper >= limit {
@@ -437,8 +502,8 @@ func judgeEvictOrder(p *EvictPlan, res *Result, desc string, before evSnap, surv
 		for _, y := range lruEvicted {
 			bx, by := before[x], before[y]
 			older := by.LastAccess.Sub(bx.LastAccess) >= time.Millisecond      // x strictly less recently used
-			notNewer := !bx.LastAccess.After(by.LastAccess)                     // x not more recently used
-			bigger := bx.Size/evMiB > by.Size/evMiB                             // strictly heavier in the weight's resolution
+			notNewer := !bx.LastAccess.After(by.LastAccess)                    // x not more recently used
+			bigger := bx.Size/evMiB > by.Size/evMiB                            // strictly heavier in the weight's resolution
 			notSmaller := bx.Size >= by.Size && bx.Size/evMiB >= by.Size/evMiB // at least as heavy
 			if notNewer && notSmaller && (older || bigger) {
 				res.violate("C13.c", "lru-order", "%s: %s was kept although it is both less recently used and at least as large as %s, which was evicted", desc, name(x), name(y))
